@@ -480,6 +480,8 @@ class Engine(StmtMixin):
         if check_inv:
             for cl in _clauses(c.env.get("atomic_inv", [])):
                 self.oblige(st, self.eval_clause(cl, st, sctx), "atomic-inv", line, f"before-suspension:{cl.name}", cl.tags)
+        before = st.clone()
+        sctx.specials["$pre"] = (before, sctx.frame)  # rely invariants may relate to the state just before the suspension: pre(...)
         for pth in rh:
             if pth.startswith("?"):
                 # optional path: only when its root variable is bound at this suspension point
